@@ -973,5 +973,9 @@ def run(ctx):
     r6_constant_split(ctx, sym)
     r7_literal_identity(ctx, sym)
     r9_reported_position(ctx, sym)
+    # R10: the text CAIT parses is the submission's main code; that main code is the text submitted, character for
+    # character, string literals with unusual blanks included (shared with C12.R8 / C06.R1)
+    from .c12 import r8_text_kept
+    r8_text_kept(ctx, sym, rule='R10')
     ctx.assume("the parsed program handed to find_all/find_matches is CPython's ast of the submission "
                "(C12.R4); counts for individual programs are not enumerated")
